@@ -122,15 +122,19 @@ c29_det_each(G, X) :-
 %         Lhs    = per equation of the answer the name of the variable on its left ('' if none)
 %         Others = number of goals other than equations and `true`
 %     | unreadable(EncBall) | ex(EncBall)
-c29_alone(ACodes, Names, R) :-
+c29_alone(ACodes, Names, R) :- c29_alone(ACodes, " .", Names, R).
+
+% with End = "." the text is read exactly as the toplevel prints its last answer (answer, then
+% the final dot)
+c29_alone(ACodes, End, Names, R) :-
     c29_chars(ACodes, Chars0),
-    append(Chars0, " .", Chars),
+    append(Chars0, End, Chars),
     catch(read_term_from_chars(Chars, Goal, [variable_names(VNs)]), B, true),
     (   nonvar(B) ->
         vp_enc(B, EB), R = unreadable(EB)
     ;   c29_template(Names, VNs, Tmpl),
         c29_shape(Goal, VNs, Lhs, [], 0, Others),
-        catch(( findall(E, (call(Goal), copy_term(Tmpl, T1, Gs), length(Gs, NGs), vp_enc(T1-NGs, E)), L), R = ok(L, Lhs, Others) ),
+        catch(( findall(E, (call(Goal), copy_term(Tmpl, T1, Gs), length(Gs, NGs), c29_enc_acyclic(T1-NGs, E)), L), R = ok(L, Lhs, Others) ),
               B2,
               ( c29_ball_enc(B2, EB2), R = ex(EB2) ))
     ).
@@ -177,6 +181,29 @@ c29_ball_enc(B, E) :-
     (   nonvar(B), B = error(F, _), nonvar(F) -> functor(F, N, A), vp_enc(error(N/A), E)
     ;   nonvar(B) -> functor(B, N, A), vp_enc(ball(N/A), E)
     ;   vp_enc(var, E)
+    ).
+
+% c29_last_kind(+AnswerCodes, -K): what the last goal of the answer is:
+%   atom (Var = an atom) | compound (Var = any other term) | goal
+c29_last_kind(ACodes, K) :-
+    c29_chars(ACodes, Chars0),
+    append(Chars0, " .", Chars),
+    read_term_from_chars(Chars, Goal, []),
+    c29_last_goal(Goal, G),
+    (   nonvar(G), G = (_ = V) ->
+        (   atom(V) -> K = atom ; K = compound )
+    ;   K = goal
+    ).
+
+c29_last_goal(G, L) :-
+    (   nonvar(G), G = (_, B) -> c29_last_goal(B, L)
+    ;   L = G
+    ).
+
+% a(cyclic) where the term cannot be encoded
+c29_enc_acyclic(T, E) :-
+    (   acyclic_term(T) -> vp_enc(T, E)
+    ;   vp_enc(cyclic, E)
     ).
 
 c29_loaded(yes).
